@@ -29,7 +29,7 @@ func checkC03(r *Run) {
 	r.Rule("R10", "printers are linear: on every path of an AST printer each child expression is printed at most once (the parser prints every statement; a double print costs 2^depth)", 10)
 	lx := analyseLexerArms(r.W)
 	lexerEOFRuleSSA(r, "R1")
-	parserLoopsRule(r, "R2")
+	parserLoopsRuleSSA(r, "R2")
 	recursionProgressRule(r, "R3")
 	expectPeekIdiomRule(r, "R4")
 	nilSafetyRule(r, "R5")
